@@ -41,18 +41,12 @@ theorem readBlockContents_clean (w : World) (file : Nat) (img : Bytes) (h : Bloc
       ∧ w'.cache = w.cache ∧ w'.files = w.files ∧ w'.events = w.events := by
   have hr := readBytes_clean_eq file
     ⟨h.offset, h.size + Consts.tableBlockCksumLen + Consts.tableBlockCompressLen⟩ w hc.sched
-  generalize hw' : ({ w with
+  refine ⟨({ w with
       sched := [],
       readLog := (file, h.offset, h.size + Consts.tableBlockCksumLen + Consts.tableBlockCompressLen) :: w.readLog,
-      allocs := (h.size + Consts.tableBlockCksumLen + Consts.tableBlockCompressLen) :: w.allocs } : World) = w'
-      at hr
-  refine ⟨w', ?_, ?_, ?_, ?_, ?_⟩
-  · rw [readBlockContents_eq, hr, hc.file]
-    rfl
-  · subst hw'; exact ⟨hc.file, rfl⟩
-  · subst hw'; rfl
-  · subst hw'; rfl
-  · subst hw'; rfl
+      allocs := blockAllocs img h ++ w.allocs } : World), ?_, ⟨hc.file, rfl⟩, rfl, rfl, rfl⟩
+  rw [readBlockContents_eq, hr, hc.file]
+  simp only [blockAllocs, blockAt, List.append_assoc, List.cons_append, List.nil_append]
 
 theorem readTableBlock_clean (w : World) (file : Nat) (img : Bytes) (h : BlockHandle)
     (hc : CleanWorld w file img) :
